@@ -127,14 +127,27 @@ CallBeforeLastOperand(args) == \E i \in 1..(Len(args) - 1) : args[i].t = "call" 
 \* object is relocated before its operands are collected; their names would be searched from the new place)
 NamesInOperands(args) == UNION {NamesIn(args[i]) : i \in 1..Len(args)}
 NamesUnderRelocatedDecl(t) == t.k = "decl" /\ ~SingleSeg(t.f) /\ NamesInOperands(t.args) # {}
+\* D14: a Buffer inside the size term of a Buffer (a deferred block nested in a deferred term)
+RECURSIVE HasBuffer(_)
+HasBuffer(x) == x.t = "buffer" \/ (x.t \in Nested /\ \E i \in 1..Len(x.a) : HasBuffer(x.a[i]))
+RECURSIVE BufferInBufferSize(_)
+BufferInBufferSize(x) == \/ x.t = "buffer" /\ \E i \in 1..Len(x.a) : HasBuffer(x.a[i])
+                         \/ x.t \in Nested /\ \E i \in 1..Len(x.a) : BufferInBufferSize(x.a[i])
+\* D15: a name inside a Buffer size term that designates a unit of a BankField of the same table (Buffer sizes
+\* and BankFields are both read in the deferred pass, in TREE order: the unit may not exist yet when the size
+\* is read - always when the BankField is written later, and also when merges put the Buffer ahead of it)
+RECURSIVE NamesInBufferSize(_)
+NamesInBufferSize(x) == IF x.t = "buffer" THEN UNION {NamesIn(x.a[i]) : i \in 1..Len(x.a)}
+                        ELSE IF x.t \in Nested THEN UNION {NamesInBufferSize(x.a[i]) : i \in 1..Len(x.a)} ELSE {}
 \* D5/D6: operator expressions; D6/D7: While
 UsesOperator(t) == t.k \in {"stmt", "if", "while"} /\ \E i \in 1..Len(t.x) : HasOp(t.x[i])
 UsesWhile(t)    == t.k = "while"
 
 (* ------------------------------------------------------------------ the loader *)
-\* st: [ns, names (declared last segments), displaced (see D1b), ixs (see D10), lateargs (declarations whose operands use names), stack (<<[p, t, cnt, late, off]>>), pend (invocations of this table),
+\* st: [seq (tokens read), bankunits (units of this table's BankFields with the position of the BankField, see D15),
+\*      ns, names (declared last segments), displaced (see D1b), ixs (see D10), lateargs (declarations whose operands use names), stack (<<[p, t, cnt, late, off]>>), pend (invocations of this table),
 \*      calls (resolved invocations of finished tables), tab, trig (finding ids met), err]
-S0 == [ns |-> Predef, names |-> {}, displaced |-> {}, ixs |-> {}, lateargs |-> <<>>, stack |-> <<>>, pend |-> <<>>, calls |-> <<>>, tab |-> 1, trig |-> {}, err |-> <<>>]
+S0 == [ns |-> Predef, names |-> {}, displaced |-> {}, ixs |-> {}, lateargs |-> <<>>, seq |-> 0, bankunits |-> {}, stack |-> <<>>, pend |-> <<>>, calls |-> <<>>, tab |-> 1, trig |-> {}, err |-> <<>>]
 Cur(st)      == IF st.stack = <<>> THEN <<>> ELSE Last(st.stack).p
 InMethod(st) == \E i \in 1..Len(st.stack) : st.stack[i].t = "method"
 Fail(st, why) == [st EXCEPT !.err = why]
@@ -151,6 +164,7 @@ NameTriggers(st, t) ==
 TermTriggers(st, t) ==
   (IF UsesOperator(t) \/ (t.k = "decl" /\ \E i \in 1..Len(t.x) : HasOp(t.x[i])) THEN {"D5"} ELSE {})
   \cup (IF t.k = "decl" /\ CallBeforeLastOperand(t.x) THEN {"D12"} ELSE {})
+  \cup (IF \E i \in 1..Len(t.x) : BufferInBufferSize(t.x[i]) THEN {"D14"} ELSE {})
   \cup (IF t.k = "decl" /\ ~SingleSeg(t.f) THEN {"D13"} ELSE {})
   \cup (IF UsesWhile(t) \/ \E i \in 1..Len(st.stack) : st.stack[i].t = "while" THEN {"D7"} ELSE {})
   \cup UNION {UNION { (IF UsesCaretInObjectScope(st.ns, Cur(st), f) THEN {"D1"} ELSE {})
@@ -159,7 +173,7 @@ TermTriggers(st, t) ==
 
 \* operands of a statement wait for the end of the table (a name may be declared after its use)
 Count(st) == IF st.stack = <<>> THEN st ELSE [st EXCEPT !.stack[Len(st.stack)].cnt = @ + 1]
-Pend(st, t) == [Count(st) EXCEPT !.pend = @ \o [i \in 1..Len(t.x) |-> [cur |-> Cur(st), x |-> t.x[i]]],
+Pend(st, t) == [Count(st) EXCEPT !.pend = @ \o [i \in 1..Len(t.x) |-> [cur |-> Cur(st), x |-> t.x[i], seq |-> st.seq]],
                           !.trig = @ \cup TermTriggers(st, t)]
 
 Declare(st, t, kind, args, scoped) ==
@@ -209,9 +223,9 @@ DeclField(st, t) ==
   ELSE IF Cardinality(ps) # Len(us) \/ \E p \in ps : Has(st.ns, p) THEN Fail(st, <<"field unit declared twice", t>>)
   ELSE [st EXCEPT !.ns = @ \cup {us[i] : i \in 1..Len(us)},
                   !.names = @ \cup {Last(p) : p \in ps},
-                  \* D10 bookkeeping: an IndexField written in another scope than its index register
-                  !.ixs = IF t.kind = "IndexField" /\ Front(Lookup(st.ns, Cur(st), t.f)) # Cur(st)
-                          THEN @ \cup {[q |-> Cur(st), x |-> Last(t.f.segs)]} ELSE @,
+                  !.bankunits = IF t.kind = "BankField" THEN @ \cup {[p |-> q, seq |-> st.seq] : q \in ps} ELSE @,
+                  \* D10 bookkeeping: the scope an IndexField is written in and the name of its index register
+                  !.ixs = IF t.kind = "IndexField" THEN @ \cup {[q |-> Cur(st), x |-> Last(t.f.segs)]} ELSE @,
                   !.trig = @ \cup (IF \E p \in ps : ReusesName(st.names, Last(p)) THEN {"D3"} ELSE {})
                              \cup (IF PrefixedIndexName(t) THEN {"D11"} ELSE {})]
 
@@ -228,12 +242,15 @@ TermOK(ns, r) ==
 
 \* end of a table: the recorded operands are resolved against the namespace as it is NOW; the
 \* invocations among them (source order) are what the tree has to show
-\* D10: the parser gives an IndexField the name of its index register; a single-segment name in a method
-\* body that is searched from inside the IndexField's scope then finds the IndexField, not the register
+\* D10: the parser gives an IndexField the name of its index register; a single-segment name that is searched
+\* from the IndexField's scope or below may then find the IndexField, not the register (always when the register
+\* lives in an enclosing scope; in the same scope when merges / relocations put the register behind the IndexField)
 IsPrefixOf(q, p) == Len(q) <= Len(p) /\ Prefix(p, Len(q)) = q
 ShadowedByIndexField(st) ==
   \E i \in 1..Len(st.pend) : \E f \in NamesIn(st.pend[i].x) : \E e \in st.ixs :
-     SingleSeg(f) /\ f.segs[1] = e.x /\ IsPrefixOf(e.q, st.pend[i].cur)
+     /\ f.segs # <<>> /\ Last(f.segs) = e.x
+     /\ IF SingleSeg(f) THEN IsPrefixOf(e.q, st.pend[i].cur)                       \* found on the way up
+        ELSE LET p == Lookup(st.ns, st.pend[i].cur, f) IN p # None /\ p # <<>> /\ e.q = Front(p)   \* found in the named scope
 \* the operands of the declarations in `late`, with their names replaced by the objects they designate
 RECURSIVE ResolveOperands(_, _)
 ResolveOperands(ns, late) ==
@@ -241,6 +258,9 @@ ResolveOperands(ns, late) ==
   ELSE LET o == Obj(ns, Head(late).p)
            r == [o EXCEPT !.args = [i \in 1..Len(o.args) |-> Resolve(ns, Head(late).cur, o.args[i])]]
        IN ResolveOperands((ns \ {o}) \cup {r}, Tail(late))
+BufferSizeNamesBankUnit(st) ==
+  \E i \in 1..Len(st.pend) : \E f \in NamesInBufferSize(st.pend[i].x) : \E e \in st.bankunits :
+     e.p = Lookup(st.ns, st.pend[i].cur, f)
 EndTable(st) ==
   LET res == [i \in 1..Len(st.pend) |-> Resolve(st.ns, st.pend[i].cur, st.pend[i].x)]
       bad == {i \in 1..Len(res) : ~TermOK(st.ns, res[i])}
@@ -250,9 +270,11 @@ EndTable(st) ==
   ELSE [st EXCEPT !.calls = @ \o [i \in 1..Len(cs) |-> [tab |-> st.tab, p |-> cs[i].p, a |-> cs[i].a]],
                   !.ns = ResolveOperands(st.ns, st.lateargs), !.lateargs = <<>>,
                   !.pend = <<>>, !.tab = @ + 1, !.displaced = {},
-                  !.trig = @ \cup (IF ShadowedByIndexField(st) THEN {"D10"} ELSE {})]
+                  !.bankunits = {},
+                  !.trig = @ \cup (IF ShadowedByIndexField(st) THEN {"D10"} ELSE {})
+                             \cup (IF BufferSizeNamesBankUnit(st) THEN {"D15"} ELSE {})]
 
-Apply(st, t) ==
+Apply0(st, t) ==
   IF st.err # <<>> THEN st
   ELSE CASE t.k = "scope"  -> LET tgt == ScopeTarget(st.ns, Cur(st), t.f) IN
                               IF InMethod(st) THEN Fail(st, <<"Scope inside a method", t>>)
@@ -274,6 +296,7 @@ Apply(st, t) ==
          [] t.k = "endtable" -> EndTable(st)
          [] OTHER -> Fail(st, <<"unknown token", t>>)
 
+Apply(st, t) == Apply0([st EXCEPT !.seq = @ + 1], t)
 RECURSIVE LoadFrom(_, _, _)
 LoadFrom(st, toks, i) == IF i > Len(toks) THEN st ELSE LoadFrom(Apply(st, toks[i]), toks, i + 1)
 Load(toks) == LoadFrom(S0, toks, 1)
